@@ -63,6 +63,7 @@ pub struct PoolValues<'a, K, M> { _p: core::marker::PhantomData<&'a (K, M)> }
 impl<'a, K, M> OccupiedEntry<'a, K, M> {
     pub uninterp spec fn wid(&self) -> usize;
     pub uninterp spec fn aid(&self) -> int;
+    pub uninterp spec fn working(&self) -> bool;
 }
 impl<K, M> Pool<K, M> {
     /// every worker record in the pool is available (idle, empty queue)
@@ -324,6 +325,13 @@ impl<K: JobKey, M: Message> WorkerProperties<K, M> {
     #[verus_verify(external_body)]
     #[verus_spec(r => ensures r == self.working)]
     pub fn is_working(&self) -> bool { unimplemented!() }
+    /// how many jobs wait in the worker's own queue (a queued job makes the worker busy; a job in flight does so without being queued)
+    #[verus_verify(external_body)]
+    #[verus_spec(r => ensures r > 0 ==> self.working)]
+    pub fn queued_job_count(&self) -> usize { unimplemented!() }
+    #[verus_verify(external_body)]
+    #[verus_spec(r => ensures r > 0 ==> self.working)]
+    pub fn active_job_count(&self) -> usize { unimplemented!() }
     #[verus_verify(external_body)]
     #[verus_spec(r => ensures r == !self.working)]
     pub fn is_available(&self) -> bool { unimplemented!() }
@@ -381,11 +389,16 @@ impl<K: JobKey, M: Message> Pool<K, M> {
 #[verus_verify]
 impl<'a, K: JobKey, M: Message> OccupiedEntry<'a, K, M> {
     #[verus_verify(external_body)]
-    #[verus_spec(r => ensures r.wid == old(self).wid(), r.actor.aid() == old(self).aid(), final(self).wid() == old(self).wid(), final(self).aid() == old(self).aid())]
+    #[verus_spec(r => ensures r.wid == old(self).wid(), r.actor.aid() == old(self).aid(), r.working == old(self).working(), final(self).wid() == old(self).wid(), final(self).aid() == old(self).aid(),
+        final(self).working() == old(self).working())]
     pub fn get_mut(&mut self) -> &mut WorkerProperties<K, M> { unimplemented!() }
     #[verus_verify(external_body)]
     #[verus_spec(r =>
         with Tracked(log): Tracked<&mut EffectLog>
+        // GUARD (C13/C14): a pool slot is dropped through its entry only when the worker is idle -- a worker with a job in flight or
+        // queued stays in the pool (marked draining) until its last job has come back, so its bookkeeping (which keys it is busy
+        // with, whose replies it owes) is not lost
+        requires !self.working()
         ensures r.wid == self.wid(), r.actor.aid() == self.aid(), final(log).s == old(log).s.push(Effect::PoolRemove(self.wid(), self.aid())),
     )]
     pub fn remove(self) -> WorkerProperties<K, M> { unimplemented!() }
